@@ -1082,6 +1082,14 @@ impl<'a> Ctx<'a> {
                                 continue;
                             }
                         }
+                        // flexprog.rs (opt-in with the block fragment): the expected type fixes the type variables of the result
+                        // (`size.map(|s| s.into())` at an expected `Size<Option<f32>>`: the closure's result type)
+                        if self.ext.block && !expect.has_unknown() {
+                            let mut sub2 = sub.clone();
+                            if sig.ret.unify(expect, &mut sub2) {
+                                sub = sub2;
+                            }
+                        }
                         let mut ls = vec![recv];
                         ls.extend(self.args_of_s(&sig, &args, &format!("{}::{name}", rt.head()), &mut sub)?);
                         return Ok((self.apply_sig(&sig, ls), sig.ret.subst_vars(&sub)));
